@@ -1005,6 +1005,26 @@ def rule_nonempty(env, shared):
                     p = CProver(facts, ev, u.ctx, payload_facts={m.canon(k): [tuple(m.canon(x) if isinstance(x, tuple) else x
                                                                                   for x in f) for f in v]
                                                                   for k, v in ev.payload_facts.items()})
+                    # judged on the return value too (`(values.len() > 0).then_some(NextChunk {..})` builds the struct before
+                    # the test): what is known on every way of returning Some
+                    if not any((p.lt(B, E) if E[0] != "range" else p.lt(E[1], E[2])) for E in ends):
+                        from guards import local_cases, class_facts
+                        somes = [c for c in (local_cases(ev, u.ctx, 0, True) or []) if c[0] == "Some"]
+                        if somes:
+                            cf_ = [tuple(m.canon(x) if isinstance(x, tuple) else x for x in f) for f in class_facts(somes, "Some")]
+                            extra = []
+                            for f in cf_:
+                                # 0 < E - B (the length of the view that is handed out) says B < E
+                                if len(f) == 3 and f[0] == "lt" and f[1] == ("int", 0):
+                                    x = f[2]
+                                    while x[0] == "call" and x[1] == "len" and x[2]:
+                                        x = unref(x[2][0])
+                                    if x[0] == "agg" and len(x[2]) == 2 and not x[1].endswith("Range::Range"):
+                                        x = m.canon(unref(x[2][1]))  # a view struct {ptr, len}
+                                    if x[0] == "bin" and x[1] == "Sub":
+                                        extra.append(("lt", m.canon(unref(x[3])), m.canon(unref(x[2]))))
+                            facts = facts + [f for f in cf_ + extra if f not in facts]
+                            p = CProver(facts, ev, u.ctx, payload_facts=p.payload_facts)
                     for E in ends:
                         if E[0] == "range":
                             bv, evl = E[1], E[2]
